@@ -409,6 +409,23 @@ theorem C08_old_statement_witness : ¬ C08_statement_for sysOld := by
   simp [okFinal, C08_old_racing_enqueue_witness.2.2.2.1] at h2
   simp [h2] at this
 
+/-! ### The order of the two loads in the writer's loop condition is load-bearing -/
+
+def swappedCfg : Cfg St Thread := runSched sysSwapped (initSt 1 1, witnessThreads 1 (fun _ => 0)) swappedSched
+
+set_option maxRecDepth 4000 in
+/-- With the loop condition written `scheduledCount.Load() != 0 || running.Load()` (counter first) the protocol
+violates the statement: the writer reads the counter (0), a producer announces its object and still sees
+`running = true`, Stop clears `running`, the writer reads `running = false` and leaves; every call returns and
+the object is marked scheduled, queued and never written.  (On the real code this window is two adjacent atomic
+loads wide; no run has ever hit it, the regenerated skeleton / statement obligations are what reports the swap.) -/
+theorem C08_loop_condition_order_witness :
+    Reach sysSwapped (initSt 1 1, witnessThreads 1 (fun _ => 0)) swappedCfg ∧
+    swappedCfg.1.wpc = .exited ∧ (∀ t ∈ swappedCfg.2, t.finished = true) ∧
+    ok (trace swappedCfg) = true ∧ okFinal (trace swappedCfg) = false ∧
+    (Mon.run (trace swappedCfg)).sch 0 = 1 ∧ (Mon.run (trace swappedCfg)).wr 0 = 0 ∧ swappedCfg.1.queue = [0] :=
+  ⟨runSched_reach _ _ _, by decide⟩
+
 /-! ### Regenerated tie: the synchronisation skeletons the protocol model was written against
 
 `Hive/Gen/C08_Skel.lean` is regenerated from kvstore/batch_writer.go and batch_collector.go on every run.  The
